@@ -131,6 +131,9 @@ class VecInterp {
   static void *obj_alloc() {
     size_t al = alignof(V) < 16 ? 16 : alignof(V);
     size_t sz = (sizeof(V) + al - 1) / al * al;
+    // C14 reasons about the sizeof(V) bytes a relocation copies: leave room behind the object so that inline slots reaching beyond it
+    // are reported by the layout check below instead of stopping the process at the first write
+    if (ctx().prop == 14) sz += 64;
     void *p = 0;
     if (posix_memalign(&p, al, sz) != 0) abort();
     memset(p, 0xCD, sz);
@@ -301,7 +304,8 @@ class VecInterp {
       }
     } else if (inl && !inside(i, reinterpret_cast<const char *>(d + cap) - 1) && cap > 0) {
       // the inline slots must lie inside the object entirely: the last one ends beyond it
-      violation(P05 | P07 | P17, "%s: the %ld inline slots of %zu bytes starting at offset %ld do not fit in the object of %zu bytes", what, cap, sizeof(E),
+      violation(P05 | P07 | P17 | (amc::is_trivially_relocatable<V>::value ? P14 : 0u),
+                "%s: the %ld inline slots of %zu bytes starting at offset %ld do not fit in the object of %zu bytes (a byte copy of the object loses them)", what, cap, sizeof(E),
                 static_cast<long>(reinterpret_cast<const char *>(d) - static_cast<const char *>(s[i].mem)), sizeof(V));
       cap_trusted = false;
     } else if (inl && cap > T::N) {
